@@ -16,7 +16,7 @@ from .. import tlc
 
 LEVEL = "model_checking"
 INVS = ["LatestAtZero", "Window", "WindowAvailable", "NoAlias"]
-PROPS = ["AdditiveEmptyRejected", "GetReturnsStored", "ReadsDoNotWrite"]
+PROPS = ["AdditiveEmptyRejected", "GetReturnsStored", "ReadsDoNotWrite", "OthersIndependent"]
 BUMP = 10
 SETV, ADDV = (1, 2), (1,)
 CLIENT_CAP = 2
@@ -62,9 +62,9 @@ class DictStore(Store):
     def stored(self, loc):
         d = self.data.get(self._key(loc), {}).get(self.NAME, {})
         keys = sorted(d.keys())
-        if keys != list(range(len(keys))):
-            raise RuntimeError(f"index gap in stored values: {keys}")
-        return [[d[k]] for k in keys]
+        bad = np.array([-999.0, -998.0])   # a gap is reported as a slot with inconsistent content (-1)
+        top = (max(keys) + 1) if keys else 0
+        return [[d.get(k, bad)] for k in range(top)]
 
     def set(self, loc, v, add):
         import porepy as pp
@@ -92,6 +92,21 @@ class DictStore(Store):
         M = self.depth[loc]
         pp.shift_solution_values(self.NAME, self.data, self._key(loc), max_index=(M or None))
 
+    # the other quantity: another name in the same data dictionary
+    def other_stored(self):
+        d = self.data.get(self._key("ts"), {}).get("y", {})
+        return [_content([d[k]]) for k in sorted(d)]
+
+    def other_set(self, v):
+        import porepy as pp
+
+        pp.set_solution_values("y", np.full(2, float(v)), self.data, time_step_index=0)
+
+    def other_shift(self):
+        import porepy as pp
+
+        pp.shift_solution_values("y", self.data, self._key("ts"), max_index=(self.depth["ts"] or None))
+
 
 _ES_CACHE = {}
 
@@ -106,16 +121,23 @@ class EqSysStore(Store):
         if "es" not in _ES_CACHE:
             g = pp.CartGrid([2, 1])
             g.compute_geometry()
+            g2 = pp.CartGrid([3])
+            g2.compute_geometry()
             mdg = pp.MixedDimensionalGrid()
-            mdg.add_subdomains([g])
+            mdg.add_subdomains([g, g2])
             es = pp.ad.EquationSystem(mdg)
-            es.create_variables("a", {"cells": 1}, subdomains=[g])
-            es.create_variables("b", {"cells": 1, "faces": 1}, subdomains=[g])
-            _ES_CACHE["es"] = (mdg, g, es)
-        self.mdg, self.g, self.es = _ES_CACHE["es"]
+            a = es.create_variables("a", {"cells": 1}, subdomains=[g, g2])
+            b = es.create_variables("b", {"cells": 1, "faces": 1}, subdomains=[g])
+            mine = [v for v in a.sub_vars if v.domain is g] + list(b.sub_vars)
+            other = [v for v in a.sub_vars if v.domain is g2]
+            _ES_CACHE["es"] = (mdg, g, g2, es, mine, other)
+        self.mdg, self.g, self.g2, self.es, self.mine, self.other = _ES_CACHE["es"]
         self.data = self.mdg.subdomain_data(self.g)
-        for k in (pp.TIME_STEP_SOLUTIONS, pp.ITERATE_SOLUTIONS):
-            self.data.pop(k, None)
+        self.data2 = self.mdg.subdomain_data(self.g2)
+        for d in (self.data, self.data2):
+            for k in (pp.TIME_STEP_SOLUTIONS, pp.ITERATE_SOLUTIONS):
+                d.pop(k, None)
+        self.n_mine = int(sum(len(self.es.dofs_of([v])) for v in self.mine))
 
     def stored(self, loc):
         import porepy as pp
@@ -124,32 +146,47 @@ class EqSysStore(Store):
         da = self.data.get(key, {}).get("a", {})
         db = self.data.get(key, {}).get("b", {})
         keys = sorted(set(da) | set(db))
-        if keys != list(range(len(keys))) or set(da) != set(db):
-            raise RuntimeError(f"index gap / variable mismatch in stored values: {sorted(da)} {sorted(db)}")
-        return [[da[k], db[k]] for k in keys]
+        # an index present for one variable only (or a gap) is an observation, not a harness error: the slot is
+        # reported with the inconsistent content -1 (a sentinel array makes the group non-uniform)
+        bad = np.array([-999.0])
+        top = (max(keys) + 1) if keys else 0
+        return [[da.get(k, bad), db.get(k, bad)] for k in range(top)]
 
     def set(self, loc, v, add):
-        a = np.full(self.es.num_dofs(), float(v))
+        a = np.full(self.n_mine, float(v))
         kw = {}
         if loc in ("ts", "both"):
             kw["time_step_index"] = 0
         if loc in ("it", "both"):
             kw["iterate_index"] = 0
         self.push([a])
-        self.es.set_variable_values(a, additive=add, **kw)
+        self.es.set_variable_values(a, self.mine, additive=add, **kw)
 
     def get(self, loc, i):
         kw = {"time_step_index": i} if loc == "ts" else {"iterate_index": i}
-        r = self.es.get_variable_values(**kw)
+        r = self.es.get_variable_values(self.mine, **kw)
         self.push([r])
         return r
 
     def shift(self, loc):
         M = self.depth[loc]
         if loc == "ts":
-            self.es.shift_time_step_values(max_index=(M or None))
+            self.es.shift_time_step_values(self.mine, max_index=(M or None))
         else:
-            self.es.shift_iterate_values(max_index=(M or None))
+            self.es.shift_iterate_values(self.mine, max_index=(M or None))
+
+    # the other quantity: the same variable name "a" on the other subdomain
+    def other_stored(self):
+        import porepy as pp
+
+        d = self.data2.get(pp.TIME_STEP_SOLUTIONS, {}).get("a", {})
+        return [_content([d[k]]) for k in sorted(d)]
+
+    def other_set(self, v):
+        self.es.set_variable_values(np.full(3, float(v)), self.other, time_step_index=0)
+
+    def other_shift(self):
+        self.es.shift_time_step_values(self.other, max_index=(self.depth["ts"] or None))
 
 
 def apply(s: Store, e):
@@ -169,6 +206,12 @@ def apply(s: Store, e):
     elif ev == "shift":
         s.shift(e["loc"])
         s.last = dict(ev="shift", res="ok", val=0)
+    elif ev == "oset":
+        s.other_set(e["v"])
+        s.last = dict(ev="other", res="ok", val=0)
+    elif ev == "oshift":
+        s.other_shift()
+        s.last = dict(ev="other", res="ok", val=0)
     elif ev == "mut":
         for a in s.client[e["k"] - 1]:
             a += BUMP
@@ -190,7 +233,7 @@ def project(s: Store):
                 break
         first.append(f)
     return dict(nts=len(ts), nit=len(it), ncl=len(s.client), contents=[_content(g) for g in groups],
-                first=first, last=dict(s.last))
+                first=first, last=dict(s.last), other=s.other_stored())
 
 
 def actions(p):
@@ -209,6 +252,10 @@ def actions(p):
         acts.append(dict(ev="shift", loc=loc))
     for k in range(1, p["ncl"] + 1):
         acts.append(dict(ev="mut", k=k))
+    if len(p["other"]) < 2:
+        acts.append(dict(ev="oset", v=7 + len(p["other"])))
+        if p["other"]:
+            acts.append(dict(ev="oshift"))
     if max(p["contents"] or [0]) > 40:
         return []
     return acts
